@@ -105,6 +105,7 @@ type Interp struct {
 	redirUsed  map[string]int
 	nowCount   int
 	lastNow    *Term
+	unixMemo   map[int]*Term // id of the seconds variable handed out by (Time).Unix → the instant it came from
 	constCache map[*ssa.Const]Value
 	boxes      []Value
 }
@@ -128,6 +129,7 @@ func (in *Interp) resetPath() {
 	in.cur = nil
 	in.nowCount = 0
 	in.lastNow = nil
+	in.unixMemo = map[int]*Term{}
 	in.boxes = nil
 }
 
